@@ -354,12 +354,8 @@ def run(tier, seed, replay=None):
                 kid = None
                 if r["exc"] == "TypeError" and "got None" in r.get("exc_msg", "") and r["fn"] == "b_jolt" and grazing:
                     kid = "F-J1"
-                elif r["exc"] == "ZeroDivisionError" and r["fn"] == "b_libccd" and grazing:
-                    kid = "F-L1"
-                elif r["exc"] == "ZeroDivisionError" and key in ("nesterov_prim_full+acc", "nesterov_full+acc") and nb.is_FN2(s1, s2):
-                    kid = "F-N2"
                 elif r["fn"] == "epa_full" and r.get("n_points") is not None and r["n_points"] < 4:
-                    kid = "F2"
+                    kid = "F2-C19"
                 elif r["fn"] == "epa_full" and r["exc"] == "AssertionError" and "n_faces < self.max_faces" in r.get("tb", ""):
                     kid = "F-EPA-CAP"       # the capacity assertion, but on a pair of polytopes
                 report(f"{key} raised {r['exc']}: {r.get('exc_msg', '')}", case, site, kid)
@@ -385,10 +381,8 @@ def run(tier, seed, replay=None):
                 R.failure(f"epa: {r['n_epa']} support evaluations exceed the proven bound {bounds['epa_only']}", case, site=site)
             for b in finite_ok(r):
                 kid = None
-                if key == "nesterov_full+acc" and nb.is_FN2(s1, s2):
-                    kid = "F-N2"
-                elif r["fn"] == "epa_full" and r.get("n_points") is not None and r["n_points"] < 4:
-                    kid = "F2"
+                if r["fn"] == "epa_full" and r.get("n_points") is not None and r["n_points"] < 4:
+                    kid = "F2-C19"
                 report(f"{key}: {b}", case, site, kid)
         if nontrivial:
             distinct.add(cm.canon_hash([s1, s2, c.get("same_object", False)]))
